@@ -1,4 +1,8 @@
 (* C07 - totality: any text and any valid option set gives a result or SQLParseError. *)
+(* source pins: the functions of /repo the hand-written models in this file's cone mirror have the normalised AST they
+   were written from (tools/regen/gen_srcpins.py; a changed function breaks its Gen/Pin_*.v and this file with it) *)
+From SqlModel.Gen Require LexPins.   (* the scan loop, is_keyword, consume and the class-level state of sqlparse/lexer.py have the pinned shape *)
+From SqlModel.Gen Require Pin_filters_tokens Pin_filters_stripcomments Pin_filters_stripws Pin_filters_spaces Pin_filters_serializer Pin_filters_reindent Pin_filters_aligned Pin_filters_output Pin_filters_others_module Pin_sql_names Pin_sql_clauses Pin_sql_tree Pin_utils_helpers Pin_api_glue Pin_formatter_module.
 From SqlModel.Inst Require PassTabRun.   (* the grouping tables of Group/Passes.v equal the ones regenerated from the source *)
 From SqlModel Require Import Base PyStr Re Lexer Node Passes TotalDefs TotalFacts.
 From SqlModel.Filters Require Import OptDefs OptFacts StripComments StripCommentsFacts.
